@@ -155,23 +155,82 @@ class Design:
             for sl in self.sig_slots:
                 sl.next = sl.curr
 
-    def procs_for_edge(self, signal, polarity):
-        return [p for p in self.sync if any(s is signal and pol == polarity for s, pol in self.wakes[id(p)])]
+    def _triggers(self):
+        sigs = []
+        for p in self.sync:
+            for sgn, _pol in self.wakes[id(p)]:
+                if not any(sgn is t for t in sigs):
+                    sigs.append(sgn)
+        return sigs
+
+    def apply(self, inputs, path=None, name=None, max_deltas=64):
+        """The kernel's delta-cycle loop (PySimEngine.step_design) after a testbench / clock process
+        has written `inputs` (list of (signal, value)):
+
+            commit of the written signals  -> edge wakers of those that changed to their polarity fire
+            repeat: run every runnable process once (all read `curr`, write `next`); commit; edge wakers
+                    of the signals that changed fire
+
+        Combinational processes are re-run in every delta (they are functions of `curr`, so running one
+        whose inputs did not change is a no-op); clock / reset signals must have concrete values so that
+        "changed to polarity" is decidable.  The loop ends when no clocked process is runnable and the
+        combinational network has had `rounds()` quiet deltas; the convergence certificate is then
+        emitted (with `path`)."""
+        from pyvc.sym import Unsupported
+        trig = self._triggers()
+
+        def snap():
+            out = []
+            for t in trig:
+                v = self.slot(t).curr
+                if is_sym(v):
+                    if getattr(v, "is_const", False):
+                        v = v.lo
+                    else:
+                        raise Unsupported(f"clock/reset signal {t.name} has a symbolic value")
+                out.append(int(v))
+            return out
+
+        def woken_by(before, after):
+            w = []
+            for t, b, a in zip(trig, before, after):
+                if a != b:
+                    for p in self.sync:
+                        if any(s is t and pol == a for s, pol in self.wakes[id(p)]) and p not in w:
+                            w.append(p)
+            return w
+        before = snap()
+        for sig, v in inputs:
+            self.set(sig, v)
+        runnable = woken_by(before, snap())
+        all_woken = list(runnable)
+        quiet = 0
+        need = self.rounds()
+        for _delta in range(max_deltas):
+            for p in self.comb:
+                p.run()
+            for p in runnable:
+                p.run()
+            before = snap()
+            self.commit()
+            runnable = woken_by(before, snap())
+            for p in runnable:
+                if p not in all_woken:
+                    all_woken.append(p)
+            quiet = 0 if runnable else quiet + 1
+            if quiet >= need:
+                break
+        else:
+            raise Unsupported("design does not quiesce")
+        if path is not None:
+            for p in self.comb:
+                p.run()
+            conds = [to_sint(sl.next) == to_sint(sl.curr) for sl in self.sig_slots
+                     if is_sym(sl.next) or is_sym(sl.curr) or sl.next != sl.curr]
+            path.prove(f"{name}::comb-converged", And(*conds) if conds else True)
+            for sl in self.sig_slots:
+                sl.next = sl.curr
+        return all_woken
 
     def edge(self, events, path=None, name=None):
-        """`events`: list of (signal, new_value) happening simultaneously (clock or async-reset
-        transitions).  The signals take their new values; every sync process with a waker for one of
-        the transitions runs once (reading curr, which already shows the new clock/reset values, as
-        in the real kernel where the process runs in the delta after the clock's commit); commit;
-        settle."""
-        woken = []
-        for sig, newv in events:
-            self.set(sig, newv)
-            for p in self.sync:
-                if any(s is sig and pol == newv for s, pol in self.wakes[id(p)]) and p not in woken:
-                    woken.append(p)
-        for p in woken:
-            p.run()
-        self.commit()
-        self.settle(path, name)
-        return woken
+        return self.apply(events, path, name)
